@@ -13,6 +13,7 @@ from typing import Literal
 from extract import scalars
 from harness import morph
 from harness.core import Ctx
+from harness.props import c01_kinds
 
 ID = "C01"
 PROPS_FILE = "AdaptixProofs/Props/C01.lean"
@@ -509,6 +510,7 @@ def run(ctx: Ctx):
     self_models(ctx, eng, ctx.budget(40, 600))
     policy_layout_roundtrips(ctx, ctx.budget(120, 2000))
     generic_model_roundtrips(ctx, eng)
+    c01_kinds.kind_roundtrips(ctx, ctx.budget(90, 2400))
 
 
 def search(ctx: Ctx):
@@ -519,6 +521,7 @@ def search(ctx: Ctx):
     self_models(ctx, eng, 300)
     policy_layout_roundtrips(ctx, 1000)
     generic_model_roundtrips(ctx, eng)
+    c01_kinds.kind_roundtrips(ctx, 1200, stop_on_failure=True)
     for spec in eng.gen_specs(2000, 4, literal_unions=True, generic_models=True):
         if eng.real.dump("DISABLE", True, spec.hint, None).get("r") == "no-dumper":
             continue
@@ -532,6 +535,8 @@ def search(ctx: Ctx):
 
 
 def replay(ctx: Ctx, case) -> bool:
+    if case.get("suite") == "kind-roundtrip":
+        return c01_kinds.replay(ctx, case)
     eng = morph.Engine(ctx)
     before = len(ctx.failures)
     if "timedelta" in case:
